@@ -226,6 +226,11 @@ func (k *Kernel) lookup(name string) (fs.Node, syscall.Errno) {
 	if e != 0 {
 		return nil, e
 	}
+	// The LOOKUP reply carries the node's attributes: bazil calls Attr and a
+	// failure there fails the lookup.
+	if _, e := k.attr(node); e != 0 {
+		return nil, e
+	}
 	k.mu.Lock()
 	k.dentries[name] = &dentry{node: node, at: k.r.SimNow()}
 	k.mu.Unlock()
@@ -255,6 +260,9 @@ func (k *Kernel) Open(name string, flags int, owner uint64) (*File, syscall.Errn
 			return err
 		})
 		if e != 0 {
+			return nil, e
+		}
+		if _, e := k.attr(node); e != 0 { // the CREATE reply carries attributes too
 			return nil, e
 		}
 		k.mu.Lock()
